@@ -63,7 +63,7 @@ func Check[C any](t *testing.T, s *Sub[C], draw func(*rapid.T) C) {
 			Eval()
 			if err := s.Run(c); err != nil {
 				lastCase, lastErr = c, err
-				rt.Fatalf("%s: %v", s.Name, err)
+				rt.Fatalf("falsified: %s", s.Name) // constant text: rapid only shrinks towards failures with the same message
 			}
 		})
 	}()
